@@ -112,9 +112,48 @@ class SuperProxy:
             f = k.method(name)
             if f is not None:
                 return self.oe.bind(f, self.receiver, k)
-        if name in ("__init_subclass__", "__init__", "__new__"):
+        if name == "__new__":
+            return _ObjectNew(self.oe)
+        if name in ("__init_subclass__", "__init__"):
             return _Noop()
+        ext = self.oe.external_base_methods.get(name)
+        if ext is not None:
+            return ext(self.receiver)
         raise Unsupported(f"super().{name} not found in the repo model")
+
+
+class ImportTimeRegistry(dict):
+    """A module-level registry that `__init_subclass__` fills while the classes are being created, supplied whole by a check
+    (from the repository model).  While an `__init_subclass__` is being interpreted it answers as it did at that moment of
+    the import: the class being created is not in it yet, and what the hook stores is already there."""
+
+    def __init__(self, oe, items):
+        super().__init__(items)
+        self.oe = oe
+
+    def __contains__(self, k):
+        if self.oe.initsub_depth > 0:
+            return False
+        return dict.__contains__(self, k)
+
+    def __setitem__(self, k, v):
+        if self.oe.initsub_depth > 0:
+            return
+        dict.__setitem__(self, k, v)
+
+
+class _ObjectNew:
+    """object.__new__(cls): a fresh, uninitialised instance of cls."""
+
+    sa_callable = True
+
+    def __init__(self, oe):
+        self.oe = oe
+
+    def __call__(self, cls=None, *a, **k):
+        if not isinstance(cls, ClassRef):
+            raise PyRaise("TypeError")
+        return Instance(self.oe, cls.c)
 
 
 class _Noop:
@@ -161,6 +200,8 @@ class ModuleRef:
             return SPEC_CONSTANTS[q]
         if self.name == "ast" and isinstance(getattr(ast, name, None), type):
             return _PyType(getattr(ast, name))
+        if self.name == "io" and isinstance(getattr(__import__("io"), name, None), type) and name != "BytesIO":
+            return _PyType(getattr(__import__("io"), name))
         if self.name == "builtins":
             import builtins as _b
 
@@ -204,7 +245,47 @@ def _defaultdict(factory=None):
     return defaultdict(factory.t if isinstance(factory, _PyType) else factory)
 
 
+class _GenopsIter(PyIter):
+    """pickletools.genops over a real in-memory stream, consumed lazily (the interpreted parser moves the same stream between
+    steps); each OpcodeInfo is handed out in the record form `Opcode.info` has in this interpreter."""
+
+    def __init__(self, stream):
+        self.it, self.what = pickletools.genops(stream), "genops"
+
+    def __next__(self):
+        try:
+            info, arg, pos = next(self.it)
+        except StopIteration:
+            raise
+        except Exception as ex:  # what the reader's side raises on bytes it refuses
+            raise PyRaise(type(ex).__name__ if isinstance(ex, (ValueError, TypeError, OverflowError, EOFError, IndexError, KeyError)) else "ValueError")
+        return (_info_record(info), arg, pos)
+
+
+def _info_record(i):
+    arg = None if i.arg is None else Record("ArgumentDescriptor", {"name": i.arg.name, "n": i.arg.n})
+    return Record("OpcodeInfo", {"name": i.name, "code": i.code, "arg": arg, "proto": i.proto})
+
+
+def _genops(stream):
+    import io
+
+    if isinstance(stream, (bytes, bytearray)):
+        stream = io.BytesIO(bytes(stream))
+    if not isinstance(stream, io.BytesIO):
+        raise Unsupported("genops over something that is not an in-memory stream")
+    return _GenopsIter(stream)
+
+
+def _bytesio(data=b""):
+    import io
+
+    return io.BytesIO(bytes(data))
+
+
 SPEC_CALLABLES = {
+    "pickletools.genops": _Spec(_genops, "pickletools.genops"),
+    "io.BytesIO": _Spec(_bytesio, "io.BytesIO"),
     "ast.unparse": _Spec(ast.unparse, "ast.unparse"),
     "ast.dump": _Spec(ast.dump, "ast.dump"),
     "ast.walk": _Spec(_listed(ast.walk), "ast.walk"),
@@ -240,6 +321,9 @@ class ObjEval:
         self._module_values: Dict[tuple, Any] = {}
         self._defaults: Dict[tuple, Any] = {}
         self._memo_results: Dict[tuple, Any] = {}
+        self.initsub_depth = 0
+        self.module_specials: Dict[tuple, Any] = {}  # (module name, global name) -> provider(): registries filled while classes are created
+        self.external_base_methods: Dict[str, Any] = {}  # method name -> factory(receiver) for methods of external base classes
         self.forced_attrs: Dict[tuple, Any] = {}  # (class qualname, attr) -> provider(instance): the abstract world's answer, whatever the instance stores
         self.externals: Dict[str, Any] = {}  # qualified external name -> callable/value supplied by a check's abstract world
 
@@ -305,9 +389,7 @@ class ObjEval:
                     nm = k.attrs["name"].value
                     break
             if nm in _PT:
-                i = _PT[nm]
-                arg = None if i.arg is None else Record("ArgumentDescriptor", {"name": i.arg.name, "n": i.arg.n})
-                return Record("OpcodeInfo", {"name": i.name, "code": i.code, "arg": arg, "proto": i.proto})
+                return _info_record(_PT[nm])
             return _MISSING
         prov = self.special_attrs.get((c.qualname, name))
         if prov is not None:
@@ -368,12 +450,27 @@ class ObjEval:
     def run_initsub(self, f: FuncInfo, owner: ClassInfo, rec: "_ClsRecorder"):
         env = {f.params()[0]: rec, "kwargs": {}}
         ev = OEvaluator(self, env, f.module, cls_scope=owner, func_owner=owner, lenient_stmts=True, poison=rec)
-        ev.run_body(f.node.body)
+        self.initsub_depth += 1
+        try:
+            ev.run_body(f.node.body)
+        finally:
+            self.initsub_depth -= 1
 
     # ------------------------------------------------------------------ calls
     def instantiate(self, c: ClassInfo, args: list, kw: dict) -> Instance:
-        inst = Instance(self, c)
+        """type.__call__: `cls.__new__(cls, *args, **kw)`, then - if that returned an instance of cls - its __init__ with the same
+        arguments."""
+        inst = None
         for k in self.repo.mro_classes(c):
+            nf = k.method("__new__")
+            if nf is not None:
+                inst = self.call_func(nf, [self.ref(c)] + list(args), dict(kw), k)
+                break
+        if inst is None:
+            inst = Instance(self, c)
+        elif not (isinstance(inst, Instance) and c in self.repo.mro_classes(inst.c)):
+            return inst  # __new__ returned something else: __init__ is not called
+        for k in self.repo.mro_classes(inst.c):
             f = k.method("__init__")
             if f is not None:
                 self.call_func(f, [inst] + list(args), kw, k)
@@ -427,6 +524,11 @@ class ObjEval:
             return self.ref(m.classes[name])
         if name in m.functions:
             return FuncRef(self, m.functions[name])
+        if (m.name, name) in self.module_specials:
+            mkey = (m.name, name)
+            if mkey not in self._module_values:
+                self._module_values[mkey] = self.module_specials[mkey]()
+            return self._module_values[mkey]
         if name in m.assigns and len(m.assigns[name]) == 1:
             mkey = (m.name, name)
             if mkey in self._module_values:
@@ -456,6 +558,8 @@ class ObjEval:
                 return FuncRef(self, lk)
             if q in self.externals:
                 return self.externals[q]
+            if q.startswith("io.") and q.count(".") == 1 and isinstance(getattr(__import__("io"), q[3:], None), type) and q != "io.BytesIO":
+                return _PyType(getattr(__import__("io"), q[3:]))  # a class of the io hierarchy, for isinstance tests
             if q in SPEC_CALLABLES:
                 return SPEC_CALLABLES[q]
             if q in SPEC_CONSTANTS:
@@ -471,6 +575,14 @@ class ObjEval:
 
 
 _POISON = object()
+
+
+def _rec_eq(a, b) -> bool:
+    if isinstance(a, Record) and isinstance(b, Record):
+        return a is b or (a.cls == b.cls and a.fields.keys() == b.fields.keys() and all(_rec_eq(a.fields[k], b.fields[k]) for k in a.fields))
+    if isinstance(a, Record) or isinstance(b, Record):
+        return False
+    return a == b
 
 
 def _is_generator(fn: ast.AST) -> bool:
@@ -619,7 +731,7 @@ class OEvaluator(Evaluator):
                 same = l is r
                 return same if isinstance(e.ops[0], (ast.Eq, ast.Is)) else not same
             if isinstance(l, Record) and isinstance(r, Record) and isinstance(e.ops[0], (ast.Eq, ast.NotEq)):
-                same = l is r or (l.cls == r.cls and l.fields == r.fields)
+                same = _rec_eq(l, r)
                 return same if isinstance(e.ops[0], ast.Eq) else not same
         if isinstance(e, ast.Set):
             return set(self.ev(x) for x in e.elts)
@@ -670,7 +782,7 @@ class OEvaluator(Evaluator):
             if attr in ("size", "format"):
                 return getattr(v, attr)
             raise Unsupported(f"attribute .{attr} of a struct.Struct")
-        if isinstance(v, (str, bytes, int, list, dict, tuple, float, set, frozenset)) and not isinstance(v, bool):
+        if isinstance(v, (str, bytes, bytearray, int, list, dict, tuple, float, set, frozenset, __import__("io").BytesIO)) and not isinstance(v, bool):
             return _PyMethod(v, attr)
         raise Unsupported(f"attribute .{attr} of a {type(v).__name__}")
 
@@ -1008,6 +1120,8 @@ _PY_METHODS = {
     list: {"append", "insert", "extend", "index", "count", "copy", "pop", "sort", "reverse"},
     tuple: {"index", "count"},
     dict: {"get", "copy", "setdefault", "update", "pop"},
+    bytearray: {"extend", "append", "decode", "startswith", "endswith", "hex", "find", "count", "copy", "clear", "pop", "insert", "join", "replace"},
+    __import__("io").BytesIO: {"read", "seek", "tell", "seekable", "readable", "readline", "getvalue", "write", "close", "peek", "getbuffer", "truncate"},
     set: {"add", "discard", "update", "union", "copy", "issubset", "issuperset", "intersection", "difference", "remove"},
     frozenset: {"union", "issubset", "issuperset", "intersection", "difference"},
 }
